@@ -174,7 +174,7 @@ theorem pullTombs_inv (src : Site) (c : Cell) (a : PullAcc) (h : PInv a) : PInv 
     obtain ⟨t, ht, rfl⟩ := List.mem_map.mp hx
     have : t ∈ src.tombs.filter fun t => t.room = c.room && t.ent = c.ent && t.dday = c.day :=
       (List.mem_filter.mp ht).1
-    exact List.mem_flatMap.mpr ⟨t, this, List.mem_cons_self⟩
+    exact List.mem_append.mpr (Or.inl (List.mem_flatMap.mpr ⟨t, this, List.mem_cons_self⟩))
 
 theorem pullRows_inv (src : Site) (c : Cell) (a : PullAcc) (h : PInv a) : PInv (pullRows src c a) := by
   unfold pullRows
@@ -185,9 +185,7 @@ theorem pullRows_inv (src : Site) (c : Cell) (a : PullAcc) (h : PInv a) : PInv (
     intro x hx
     obtain ⟨r, hr, rfl⟩ := List.mem_map.mp hx
     refine List.mem_flatMap.mpr ⟨r, (List.mem_filter.mp hr).1, ?_⟩
-    split
-    · split <;> simp
-    · simp
+    split <;> simp
 
 theorem pullEntry_inv (src : Site) (a : PullAcc) (c : Cell) (h : PInv a) : PInv (pullEntry src a c) :=
   pullRows_inv _ _ _ (pullTombs_inv _ _ _ (pullETombs_inv _ _ _ h))
